@@ -335,9 +335,25 @@ def shard_main(argv):
     except HarnessAbort as exc:
         res = ctx.result()
         res['inconclusive'].append(f'harness abort: {exc!r}')
-    except BaseException:
-        res = ctx.result()
-        res['harness_error'] = traceback.format_exc()
+    except BaseException as exc:
+        # An exception that escaped from the workload.  If it was raised INSIDE the library (innermost frame
+        # under the repository) the library did something the workload's author had not thought possible -
+        # that is reported as a violation with the traceback as witness; anything else is the harness's own
+        # failure and makes the run inconclusive.
+        tb = exc.__traceback__
+        frames = traceback.extract_tb(tb)
+        inner = frames[-1] if frames else None
+        if inner is not None and os.path.realpath(inner.filename).startswith(REPO + os.sep) and isinstance(exc, Exception):
+            ctx.fail('no exception escapes from the library into the workload',
+                     f'escaped:{type(exc).__name__}:{os.path.basename(inner.filename)}:{inner.name}',
+                     {'kind': 'escaped', 'note': 'not replayable by itself: re-run the check'},
+                     {'exception': f'{type(exc).__name__}: {exc}'[:300],
+                      'traceback_tail': [f'{os.path.basename(f.filename)}:{f.lineno} {f.name}' for f in frames[-6:]]})
+            res = ctx.result()
+            res['inconclusive'].append('the workload of this shard stopped at the escaped exception')
+        else:
+            res = ctx.result()
+            res['harness_error'] = traceback.format_exc()
     faulthandler.cancel_dump_traceback_later()
     tmp = out + '.tmp'
     with open(tmp, 'w') as f:
